@@ -433,11 +433,7 @@ class WebSocketApp:
 
             try:
                 op_code, frame = self.sock.recv_data_frame(True)
-            except (
-                WebSocketConnectionClosedException,
-                KeyboardInterrupt,
-                SSLEOFError,
-            ) as e:
+            except (Exception, KeyboardInterrupt) as e:
                 if custom_dispatcher:
                     return closed(e)
                 else:
@@ -482,7 +478,10 @@ class WebSocketApp:
                         or has_pong_arrived_too_late
                     )
                 ):
-                    raise WebSocketTimeoutException("ping/pong timed out")
+                    e = WebSocketTimeoutException("ping/pong timed out")
+                    if custom_dispatcher:
+                        return closed(e)
+                    raise e
             return True
 
         def closed(
